@@ -12,7 +12,7 @@ def stores_to(cfg, suffix):
     return rf_flow.blocks_with(cfg, lambda x: x['k'] == 'BinaryOperator' and x['op'] == '=' and F.src(F.strip(x['c'][0])).endswith(suffix))
 
 
-def dominating_conditions(cfg, bid):
+def dominating_conditions(cfg, bid, selective=False):
     """[(cond text, truth)] of the branch edges that dominate block bid"""
     idom = cfg.dominators()
     out = []
@@ -25,6 +25,12 @@ def dominating_conditions(cfg, bid):
             if succ is None:
                 continue
             if (succ == bid or cfg.dominates(succ, bid, idom)) and not (other is not None and (other == bid or bid in cfg.reachable_from(other, avoid=lambda x: x == B.id))):
+                # the branch itself must lie on every path to bid (a join block after a short-circuit test is dominated by the
+                # successor of the last operand without that operand having been evaluated)
+                if not (B.id == bid or cfg.dominates(B.id, bid, idom)):
+                    continue
+                if selective and other is not None and B.id in cfg.reachable_from(other):
+                    continue  # a loop exit: the loop always gets there
                 out.append((F.src(F.strip(B.cond)), truth))
     return out
 
